@@ -114,7 +114,7 @@ fn put(path: &str, ct: Option<&str>, body: &[u8]) -> Vec<u8> {
     request("PUT", path, &h, body)
 }
 
-fn all_cases() -> Vec<Case> {
+fn all_cases(thorough: bool) -> Vec<Case> {
     let mut out = vec![];
     let form_ct = "application/x-www-form-urlencoded";
     for tr in type_refs() {
@@ -176,6 +176,55 @@ fn all_cases() -> Vec<Case> {
         let mut body = validf.clone();
         body[i] = 0xff;
         out.push(Case { position: "form", ty: "two".into(), what: format!("0xff at {i}"), req: put("/u/two", Some(form_ct), &body), want: two_form(&body) });
+    }
+    if thorough {
+        // every single-byte substitution (all 256 values) and every double deletion of both bodies
+        for i in 0..valid.len() {
+            for b in 0..=255u8 {
+                if b == valid[i] || b == 0xff {
+                    continue;
+                }
+                let mut body = valid.clone();
+                body[i] = b;
+                out.push(Case { position: "json", ty: "two".into(), what: format!("byte {b:#04x} at {i}"), req: put("/j/two", Some("application/json"), &body), want: two_json(&body) });
+            }
+            for j in (i + 1)..valid.len() {
+                let mut body = valid.clone();
+                body.remove(j);
+                body.remove(i);
+                out.push(Case { position: "json", ty: "two".into(), what: format!("deletions at {i},{j}"), req: put("/j/two", Some("application/json"), &body), want: two_json(&body) });
+            }
+        }
+        for i in 0..validf.len() {
+            for b in 0..=255u8 {
+                if b == validf[i] || b == 0xff {
+                    continue;
+                }
+                let mut body = validf.clone();
+                body[i] = b;
+                out.push(Case { position: "form", ty: "two".into(), what: format!("byte {b:#04x} at {i}"), req: put("/u/two", Some(form_ct), &body), want: two_form(&body) });
+            }
+            for j in (i + 1)..validf.len() {
+                let mut body = validf.clone();
+                body.remove(j);
+                body.remove(i);
+                out.push(Case { position: "form", ty: "two".into(), what: format!("deletions at {i},{j}"), req: put("/u/two", Some(form_ct), &body), want: two_form(&body) });
+            }
+        }
+        // the same query-string corruptions on the query extractor
+        let validq = "a=x%20y&b=42&c=red";
+        for i in 0..validq.len() {
+            for b in [b'&', b'=', b'%', b'+', b' ', b'#', b'a', b'0', b';'] {
+                let mut q = validq.as_bytes().to_vec();
+                q[i] = b;
+                let Ok(qs) = String::from_utf8(q) else { continue };
+                if qs.contains(' ') || qs.contains('#') {
+                    continue; // not expressible in a request target
+                }
+                let want = serde_urlencoded::from_str::<Two>(&qs).ok().map(|v| echo(&v));
+                out.push(Case { position: "query", ty: "two".into(), what: format!("query {qs:?}"), req: get(&format!("/q/two?{qs}"), ""), want });
+            }
+        }
     }
     // two path variables + query on one endpoint
     for (a, b, q) in [("x", "1", ""), ("x", "abc", ""), ("x", "2147483648", ""), ("x", "1", "w=abc"), ("x", "1", "w=4294967296"), ("x", "-2147483649", "w=1"), ("x", "1", "v=1&v=2")] {
@@ -292,7 +341,7 @@ fn main() {
             let h = case["request_hex"].as_str().unwrap_or("");
             let req: Vec<u8> = (0..h.len() / 2).map(|i| u8::from_str_radix(&h[2 * i..2 * i + 2], 16).unwrap()).collect();
             let srv = start();
-            match all_cases().into_iter().find(|c| c.req == req) {
+            match all_cases(true).into_iter().find(|c| c.req == req) {
                 Some(c) => run_case(ctx, &srv, &mut KeepAlive::new(srv.addr), &c, &cn, &Samples::new(0)),
                 None => versioned_cases(ctx, &cn, &Samples::new(0)),
             }
@@ -300,7 +349,7 @@ fn main() {
     }
     let ctx = Ctx::new(&args, level, "E2-live");
     let samples = Samples::new(12);
-    let cases = all_cases();
+    let cases = all_cases(ctx.tier == Tier::Thorough);
     // the handler counter is global per server: one connection per server, several servers in parallel
     let nsrv = 8;
     par_for(nsrv, nsrv, 0, |t| {
